@@ -127,7 +127,7 @@ type Options struct {
 }
 
 // NumScenarios is the number of scenario templates (scenarios.go).
-const NumScenarios = 11
+const NumScenarios = 15
 
 func (s *Sim) add(r *Rec) *Rec { s.Recs = append(s.Recs, r); return r }
 
